@@ -9,6 +9,24 @@ TRUST = ('Trusted: TLC 1.8 + CommunityModules; harness render/project (exercised
          'abstraction of numbers (order-isomorphic); Python stdlib leaf codecs (base64, strftime, re).')
 
 CHECKS = {
+    'C01': dict(
+        technique='TLA+ spec StoneSem (rule catalogue Violations/WellFormed) + StoneSemMC authoring machine explored by TLC; every finished model rendered to .stone text and compiled by specs_to_ir',
+        text='Six scenario universes (struct inheritance and field clashes; aliases and nullability incl. chains, cycles through '
+             'List/nullable; namespaces and imports incl. self/unknown/mutual import and unimported or non-namespace qualifiers; '
+             'unions open/closed with parents and tag clashes; enumerated subtypes; routes with versions, clashes and deprecation) '
+             'enumerate every combination of legal choices and injected rule violations at every site (~2700 instances). TLC '
+             'authors each instance in several orders / file splits / file orders (~1.4*10^5 states), checks OrderFree, '
+             'CycleAgreement (operational in-progress-set resolution = declarative acyclicity) and DenoteClosed, and every finished '
+             'model is replayed: specs_to_ir must return an Api iff WellFormed, and must fail only with InvalidSpec.',
+        ref='3.3, 4 (C01), Appendix A'),
+    'C02': dict(
+        technique='TLA+ operator StoneSem!Denote evaluated by TLC on every accepted model of StoneSemMC; compared field by field with the projected stone.ir.Api',
+        text='For every accepted model of the StoneSemMC scenarios the Api returned by specs_to_ir is projected (namespaces, types '
+             'with parents, fields with written types / nullability / defaults, all_fields order, subtype tables and catch-all flag, '
+             'union tags incl. the implicit other, all inherited tags, aliases, routes with versions and deprecation) and must equal '
+             'Denote(model); alphabetical lists, both linearisations (parents and alias targets first) and closure (no forward '
+             'reference left, every reachable type registered, acyclic inheritance) are checked on the real object graph.',
+        ref='3.3, 4 (C02)'),
     'C04': dict(
         technique='TLA+ spec StoneWireMC (Enc/Dec/Vals) model-checked by TLC; every state replayed through generated Python classes',
         text='TLC explores every (schema, root type, boundary-biased valid value) of the StoneWireMC universe (76 schemas x 16 root '
@@ -46,6 +64,14 @@ CHECKS = {
              'and each transition is replayed: setattr/getattr/delattr on a generated struct, the generated union member constructor, '
              'json_compat_obj_decode of a primitive; accepted iff Accepts, refusal must be ValidationError, read-back must equal Norm.',
         ref='3.4, 4 (C08)'),
+    'C11': dict(
+        technique='TLA+ authoring machine StoneSemMC (WriteDef/Finish: every order, file split and file order are behaviours) explored by TLC with invariant OrderFree; all layouts of an instance compiled and compared',
+        text='TLC checks on the model that verdict, rule attribution and denoted API are independent of definition order, of the split '
+             'of a namespace over files and of file order (quick: ascending/descending/rotated x 3 splits x 2 file orders; thorough: all '
+             'permutations). Every layout of every instance is compiled; the verdict, the projected Api and the bytes of the '
+             'python_types, python_type_stubs and js_types output must coincide for all layouts of the same definitions.',
+        ref='3.3, 4 (C11)',
+        note=TRUST + ' Comment/blank-line/continuation layout and stdin delivery are not yet covered by this check (see DESIGN).'),
     'C13': dict(
         technique='TLA+ spec StoneAnnotMC (permission- and redaction-aware Enc/Dec) model-checked by TLC; every state replayed through json_encode/json_decode',
         text='TLC explores every (24 schema variants placing Omitted/RedactedBlot/RedactedHash on struct fields, inherited, patched and '
